@@ -4,6 +4,7 @@ package interp
 
 import (
 	"fmt"
+	"go/token"
 	"go/types"
 	"strings"
 )
@@ -259,6 +260,24 @@ func init() {
 			d.ents = p.applyWritesV(d.ents, ws, d.version)
 		}
 		return nil
+	})
+	H("Go", func(fr *frame, args []value) value {
+		fr.i.path.sched.spawn(fr, token.NoPos, args[1], nil)
+		return nil
+	})
+	H("Wait", func(fr *frame, args []value) value {
+		p := fr.i.path
+		s := p.sched
+		me := s.cur
+		s.block(func() bool {
+			for _, t := range s.threads {
+				if t != me && t.state != 2 {
+					return false
+				}
+			}
+			return true
+		}, "Wait for harness goroutines")
+		return true
 	})
 	H("SymbolicSched", func(fr *frame, args []value) value {
 		p := fr.i.path
